@@ -157,25 +157,41 @@ impl ByteSeries {
         let payload_size = PayloadSize::from_raw(payload_size);
         let mut data =
             Data::new(name.as_ref(), payload_size, &header).map_err(Error::Create)?;
+
+        // a create that fails half way must leave nothing behind: remember
+        // what this call made so far
+        let mut created = vec![name.as_ref().to_path_buf()];
+        let mut downsampled = Vec::new();
+        for config in resample_configs {
+            let cache_path = config.cache_path(name.as_ref());
+            match DownSampledData::create(
+                resampler.clone(),
+                config,
+                name.as_ref(),
+                payload_size,
+                &mut data,
+                &mut corruption_callback,
+            ) {
+                Ok(cache) => {
+                    created.push(cache_path);
+                    downsampled.push(Box::new(cache) as Box<dyn DownSampled>);
+                }
+                Err(e) => {
+                    for path in created {
+                        let _ignore =
+                            std::fs::remove_file(path.with_extension("byteseries"));
+                        let _ignore = std::fs::remove_file(
+                            path.with_extension("byteseries_index"),
+                        );
+                    }
+                    return Err(Error::Downsampled(downsample::Error::Creating(e)));
+                }
+            }
+        }
+
         Ok(ByteSeries {
             range: TimeRange::None,
-            downsampled: resample_configs
-                .into_iter()
-                .map(|config| {
-                    DownSampledData::create(
-                        resampler.clone(),
-                        config,
-                        name.as_ref(),
-                        payload_size,
-                        &mut data,
-                        &mut corruption_callback,
-                    )
-                    .map_err(downsample::Error::Creating)
-                })
-                .map_ok(Box::new)
-                .map_ok(|boxed| boxed as Box<dyn DownSampled>)
-                .collect::<Result<Vec<_>, downsample::Error>>()
-                .map_err(Error::Downsampled)?,
+            downsampled,
             data,
             corruption_callback,
         })
